@@ -2,7 +2,9 @@ import FimVerif.Drivers.Proto
 import FimVerif.Model.Diff
 import FimVerif.Proofs.Lemmas.C17Script
 import FimVerif.Generated.DiffCfg
-open Lean FimVerif.Proto FimVerif.Diff
+import FimVerif.Model.DiffVal
+import FimVerif.Proofs.Lemmas.C17Sym
+open Lean FimVerif.Proto FimVerif.Diff FimVerif.DiffVal
 
 /-! Driver for C17: `["node"|"svc"|"iface", A, B]` → the table-driven model's `diff A B` (`nodeDiffC` … of `Model/Diff.lean` on
 the table `Generated/DiffCfg.lean` extracted from the source in this run) as `["ok", null | {slot: [...]}]` / `["err", kind]`.
@@ -155,9 +157,113 @@ def cfgJson : Json :=
   Json.mkObj [("compKinds", ofStrs (cfg.node.recKinds .comps)), ("ifaceKinds", ofStrs (cfg.svc.recKinds .ifs)),
     ("flagVal", Json.mkObj (cfg.flagVal.map fun e => (flagName e.1, Json.num (JsonNumber.fromNat e.2))))]
 
+/-! the value classes' own equality (`Model/DiffVal.lean`): `["veq", "L"|"C"|"U", a, b]` → `[a == b, a != b]` as Python evaluates
+them (`a`, `b`: null or an instance: field dictionary as `[[field, value], …]` / decoded JSON value), `["canon", "U", a]` → the
+canonical form.  JSON values on the wire: null, true, false, `["n", token]`, `["s", string]`, `["a", [v…]]`, `["o", [[k, v]…]]`. -/
+
+def parseFV (j : Json) : Option FV :=
+  match j with
+  | .null => some .null
+  | .str s => some (.str s)
+  | .num n => if n.exponent == 0 then some (.int n.mantissa) else none
+  | .arr xs => (xs.toList.mapM fun (x : Json) => x.getStr?.toOption).map FV.strs
+  | _ => none
+
+def parseFields (j : Json) : Option Fields :=
+  match j with
+  | .arr xs => xs.toList.mapM fun e =>
+    match e with
+    | .arr #[.str k, v] => (parseFV v).map fun x => (k, x)
+    | _ => none
+  | _ => none
+
+partial def parseJ (j : Json) : Option J :=
+  match j with
+  | .null => some J.null
+  | .bool b => some (J.bool b)
+  | .arr #[.str "n", .str t] => some (J.num t)
+  | .arr #[.str "s", .str t] => some (J.str t)
+  | .arr #[.str "a", .arr xs] => (xs.toList.mapM parseJ).map fun l => J.arr (l.foldr J.cons J.nil)
+  | .arr #[.str "o", .arr xs] =>
+    let ms : Option (List (String × J)) := xs.toList.mapM fun (e : Json) =>
+      match e with
+      | Json.arr #[Json.str k, v] => (parseJ v).map fun x => (k, x)
+      | _ => none
+    ms.map fun l => J.obj (List.foldr (fun e t => J.mem e.1 e.2 t) J.nil l)
+  | _ => none
+
+mutual
+partial def jJson : J → Json
+  | .null => Json.null
+  | .bool b => Json.bool b
+  | .num t => Json.arr #[Json.str "n", Json.str t]
+  | .str t => Json.arr #[Json.str "s", Json.str t]
+  | .arr l => Json.arr #[Json.str "a", Json.arr (jItems l).toArray]
+  | .obj m => Json.arr #[Json.str "o", Json.arr (jMembers m).toArray]
+  | _ => Json.str "?"
+partial def jItems : J → List Json
+  | .cons h t => jJson h :: jItems t
+  | _ => []
+partial def jMembers : J → List Json
+  | .mem k v t => Json.arr #[Json.str k, jJson v] :: jMembers t
+  | _ => []
+end
+
+def optArg {α} (p : Json → Option α) (j : Json) : Option (Option α) :=
+  match j with
+  | .null => some none
+  | x => (p x).map some
+
+/-- a `JSONData` instance on the wire: `["v", value]` -/
+def parseInst (j : Json) : Option J :=
+  match j with
+  | .arr #[.str "v", x] => parseJ x
+  | _ => none
+
+def eqReply (e : Bool) : Json := ok (Json.arr #[Json.bool e, Json.bool (!e)])
+
+def handleVeq (cls : String) (a b : Json) : Json :=
+  if cls == "L" || cls == "C" then
+    let m := missingFV (if cls == "L" then cfg.vals.labelsMissing else cfg.vals.capsMissing)
+    match optArg parseFields a, optArg parseFields b with
+    | some x, some y => eqReply (optEq (fieldsEq m) x y)
+    | _, _ => err "bad-args"
+  else if cls == "U" then
+    match optArg parseInst a, optArg parseInst b with
+    | some x, some y => eqReply (optEq udEq x y)
+    | _, _ => err "bad-args"
+  else if cls == "UX" then   -- two instances of different `JSONData` subclasses
+    match parseInst a, parseInst b with
+    | some x, some y => eqReply (if cfg.vals.udSameClass then false else udEq x y)
+    | _, _ => err "bad-args"
+  else err "bad-op"
+
+/-! `["dictops", [["set", leaf] | ["pop", name] …]]` → the dictionary `dictRun` (`Lemmas/C17Sym.lean`: `add_*` is `d[name] = x`,
+`remove_*` is `d.pop(name)`) builds from the empty one, against the real `InterfaceInfo.add_interface / remove_interface`. -/
+def parseDictOps (j : Json) : Option (List (DictOp (Leaf String))) :=
+  match j with
+  | .arr xs => xs.toList.mapM fun (e : Json) =>
+    match e with
+    | Json.arr #[Json.str "set", x] => (parseLeaf x).map DictOp.set
+    | Json.arr #[Json.str "pop", Json.str k] => some (DictOp.pop k)
+    | _ => none
+  | _ => none
+
 def handle (j : Json) : Json :=
   match j with
   | .arr #[.str "cfg"] => ok cfgJson
+  | .arr #[.str "classes", .str ka, .str kb] =>
+    -- slivers of two unrelated classes: the abstract `diff` every method calls first asserts `isinstance(self, other.__class__)`
+    if ka != kb && cfg.classGuard then err "assertion" else err "not-modelled"
+  | .arr #[.str "dictops", ops] =>
+    match parseDictOps ops with
+    | some l => ok (Json.arr ((dictRun l []).map leafJson).toArray)
+    | none => err "bad-args"
+  | .arr #[.str "veq", .str cls, a, b] => handleVeq cls a b
+  | .arr #[.str "canon", .str "U", a] =>
+    match parseJ a with
+    | some x => ok (jJson x.canon)
+    | none => err "bad-args"
   | .arr #[.str op, .str kind, a, sc] => handleScript op kind a sc
   | .arr #[.str kind, a, b] =>
     if kind == "node" then
